@@ -57,21 +57,22 @@ inductive PC where
   | woken                 -- notified; has to re-acquire L
   | unlocking             -- holds L; about to return from `idleTask.Run` (deferred `L.Unlock()`)
   | unreg                 -- L released; about to delete from workerIdleMap
-  | exiting               -- `getTask` returned nil; about to delete from workerMap (deferred)
+  | drained               -- workerKill was -1 and `Pop` returned nil; about to re-check workerKill under workerMapLock
+  | exiting               -- `getTask` returned nil (workerExiting counted); about to delete from workerMap (deferred)
   | gone                  -- deleted from workerMap, goroutine ended
   deriving DecidableEq, Repr, Inhabited
 
 /-- program points without payload -/
 inductive Cls where
   | head | chkT | chkF | run | noTask | idleReg | hasL | readQT | readQF | willWait | waiting
-  | woken | unlocking | unreg | exiting | gone
+  | woken | unlocking | unreg | drained | exiting | gone
   deriving DecidableEq, Repr
 
 def PC.cls : PC → Cls
   | .head => .head | .chk true => .chkT | .chk false => .chkF | .run _ => .run | .noTask => .noTask
   | .idleReg => .idleReg | .hasL => .hasL | .readQ true => .readQT | .readQ false => .readQF
   | .willWait => .willWait | .waiting => .waiting | .woken => .woken
-  | .unlocking => .unlocking | .unreg => .unreg | .exiting => .exiting | .gone => .gone
+  | .unlocking => .unlocking | .unreg => .unreg | .drained => .drained | .exiting => .exiting | .gone => .gone
 
 def PC.task? : PC → Option Task
   | .run t => some t
@@ -105,7 +106,9 @@ inductive Event where
   | killExit (i : Nat)          -- getTask: workerKill > 0 → workerKill--, return nil
   | killPass (i : Nat)          -- getTask: workerKill ≤ 0
   | pop (i : Nat) (t : Task)    -- Pop returned t
-  | popNone (i : Nat)           -- Pop returned nil → idle task (or nil when workerKill was -1)
+  | popNone (i : Nat)           -- Pop returned nil → idle task (or the drained check when workerKill was -1)
+  | drainExit (i : Nat)         -- drained worker under workerMapLock: workerKill still -1 → workerExiting++, return nil;
+                                -- otherwise (the JoinAll was overridden by a SetWorkerCount) → idle task
   | finish (i : Nat)            -- task.Run returned
   | regIdle (i : Nat)
   | wLock (i : Nat)             -- idleTask.Run: L.Lock()
@@ -141,7 +144,7 @@ def holders (f : Cls → Nat) : Nat :=
     `len(workerMap) - workerExiting` -/
 def clive (f : Cls → Nat) : Nat :=
   f .head + f .chkT + f .chkF + f .run + f .noTask + f .idleReg + f .hasL + f .readQT + f .readQF + f .willWait
-    + f .waiting + f .woken + f .unlocking + f .unreg
+    + f .waiting + f .woken + f .unlocking + f .unreg + f .drained
 
 def State.live (s : State) : Nat := clive (cntOf s.pcs)
 
@@ -167,12 +170,18 @@ def step (v : Variant) (s : State) : Event → Option State
     | _ => none
   | .pop i t =>
     match s.pcs[i]?, s.queue with
-    | some (chk _), t' :: rest => if t = t' then some { s.goto i (run t) with queue := rest } else none
+    -- any queued task: the pool works on an abstract TaskQueue (DefaultTaskQueue is FIFO — the driver
+    -- checks that —, engine.TaskQueue picks by priority / at random)
+    | some (chk _), _ => if t ∈ s.queue then some { s.goto i (run t) with queue := s.queue.erase t } else none
     | _, _ => none
   | .popNone i =>
     match s.pcs[i]?, s.queue with
-    | some (chk ok), [] => some (s.goto i (if ok then noTask else exiting))
+    | some (chk ok), [] => some (s.goto i (if ok then noTask else drained))
     | _, _ => none
+  | .drainExit i =>
+    match s.pcs[i]? with
+    | some drained => some (s.goto i (if s.kill == -1 then exiting else noTask))
+    | _ => none
   | .finish i =>
     match s.pcs[i]? with
     | some (run t) => some { s.goto i head with done := t :: s.done }
@@ -271,7 +280,7 @@ def joinAllGuard (s : State) : Bool := s.workerCount = 0 && s.queue.length = 0
 /-- pool-internal events of worker `i`: what the goroutine can do on its own -/
 def workerEvents (i : Nat) (s : State) : List Event :=
   [.killExit i, .killPass i, .popNone i, .finish i, .regIdle i, .wLock i, .readQ i, .readKill i,
-   .wWait i, .wRelock i, .wUnlock i, .unregIdle i, .exit i] ++ (s.queue.head?.map (Event.pop i)).toList
+   .wWait i, .wRelock i, .wUnlock i, .unregIdle i, .exit i, .drainExit i] ++ (s.queue.head?.map (Event.pop i)).toList
 
 /-- pool-internal events: worker steps and the remaining steps of calls already in
     flight (`AddTask` after its push, `SetWorkerCount` after setting workerKill). No
@@ -315,7 +324,7 @@ def CState.mv (s : CState) (a b : Cls) : Option CState :=
     abstraction forgets -/
 inductive CEvent where
   | killExit | killPass | pop (ok : Bool) | popNone (ok : Bool) | finish | regIdle | wLock | readQ
-  | readKill (p : Bool) | wWait | wRelock | wUnlock | unregIdle | exit
+  | readKill (p : Bool) | wWait | wRelock | wUnlock | unregIdle | exit | drainExit
   | aPush | aLock | aSignal (some : Bool) | swcUp (n : Nat) | swcDown (k : Nat) | swcSet (c : Nat) | swcLock | swcBcast
   | joinKill | bcast
   deriving DecidableEq, Repr
@@ -327,7 +336,8 @@ def cstep (s : CState) : CEvent → Option CState
   | .pop ok =>
     if 0 < s.queue then ({ s with queue := s.queue - 1 } : CState).mv (if ok then .chkT else .chkF) .run else none
   | .popNone ok =>
-    if s.queue = 0 then s.mv (if ok then .chkT else .chkF) (if ok then .noTask else .exiting) else none
+    if s.queue = 0 then s.mv (if ok then .chkT else .chkF) (if ok then .noTask else .drained) else none
+  | .drainExit => s.mv .drained (if s.kill == -1 then .exiting else .noTask)
   | .finish => s.mv .run .head
   | .regIdle => s.mv .noTask .idleReg
   | .wLock => if clockFree s then s.mv .idleReg .hasL else none
@@ -365,7 +375,7 @@ def absEvent (s : State) : Event → CEvent
   | .finish _ => .finish | .regIdle _ => .regIdle | .wLock _ => .wLock | .readQ _ => .readQ
   | .readKill i => .readKill (match s.pcs[i]? with | some (.readQ p) => p | _ => true)
   | .wWait _ => .wWait | .wRelock _ => .wRelock | .wUnlock _ => .wUnlock
-  | .unregIdle _ => .unregIdle | .exit _ => .exit
+  | .unregIdle _ => .unregIdle | .exit _ => .exit | .drainExit _ => .drainExit
   | .aPush _ => .aPush | .aLock => .aLock | .aSignal w => .aSignal w.isSome
   | .swcUp n => .swcUp n | .swcDown k => .swcDown k | .swcSet c => .swcSet c | .swcLock => .swcLock | .swcBcast => .swcBcast
   | .joinKill => .joinKill | .bcast => .bcast
